@@ -162,6 +162,16 @@ def twins(tier, seed):
             pos = uint_field("x", [(0, 1), (6, 7)])
             neg = dict(pos, ranges=[(0, 1), (7, 6)], attr_text="#[bits([0..=1, 7..=6], rw)]")
             add(_case("x", N, [pos]), _case("x", N, [neg]), "lo>hi", "range with lo > hi inside a list, %s" % bc, "list")
+            # hi = lo - 1: an "empty" range; the type is as wide as the remaining ranges
+            pos = uint_field("x", [(0, 3), (5, 5)])
+            neg = dict(uint_field("x", [(0, 3)]), ranges=[(0, 3), (5, 4)], form="list", attr_text="#[bits([0..=3, 5..=4], rw)]")
+            add(_case("x", N, [pos]), _case("x", N, [neg]), "lo>hi", "empty reversed range (hi = lo - 1) inside a list, %s" % bc, "list")
+            neg = dict(uint_field("x", [(0, 3)]), ranges=[(7, 6), (0, 3)], form="list", attr_text="#[bits([7..=6, 0..=3], rw)]")
+            add(_case("x", N, [pos]), _case("x", N, [neg]), "lo>hi", "empty reversed range (hi = lo - 1) first in a list, %s" % bc, "list")
+            if N >= 16:
+                pos = uint_field("x", [(0, 1), (3, 3)], array=arr(2, 8))
+                neg = dict(uint_field("x", [(0, 1)], array=arr(2, 8)), ranges=[(0, 1), (4, 3)], form="list", attr_text="#[bits([0..=1, 4..=3], rw, stride = 8)]")
+                add(_case("x", N, [pos]), _case("x", N, [neg]), "lo>hi", "empty reversed range inside a list array, %s" % bc, "list-array")
     # --- unsupported bases ---
     pos = _case("x", 32, [bool_field("x", 0)])
     for bt in ("u0", "u129", "u200", "i32", "usize", "u256", "bool"):
@@ -219,6 +229,35 @@ def enum_twins(tier, seed):
             add(make_enum("E", n, [0, 1], "conditional", cfg=[None, True]), make_enum("E", n, [0, 1], "false", cfg=[None, True]), "cfg-without-conditional", "cfg-gated variant under exhaustive = false")
             add(make_enum("E", n, [0, 1], "conditional", cfg=[None, False]), make_enum("E", n, [0, 1], None, cfg=[None, False]), "cfg-without-conditional", "cfg-gated variant with exhaustive omitted")
         add(make_enum("E", n, full, "conditional", cfg=[None] * (space - 1) + [True]), make_enum("E", n, full, "true", cfg=[None] * (space - 1) + [True]), "cfg-without-conditional", "cfg-gated variant under exhaustive = true")
+    # position of the offending item: first / middle / last variant; attributes around #[cfg]
+    for n in (2, 3, 5, 8, 12, 16, 33):
+        space = 1 << n
+        good = [0, 1, 2, space - 1]
+        for pos_ in range(4):
+            ds = list(good)
+            ds[pos_] = space if pos_ != 3 else space + 1
+            neg = make_enum("E", n, ds, "false")
+            add(make_enum("E", n, good, "false") if space > 4 else make_enum("E", n, [0, 1, 3], "false"), neg, "discriminant>=2^N", "discriminant >= 2^N at variant position %d of 4" % pos_)
+            neg = make_enum("E", n, ds, "conditional")
+            add(make_enum("E", n, good, "conditional"), neg, "discriminant>=2^N", "discriminant >= 2^N at variant position %d of 4 under conditional" % pos_)
+        for pos_ in range(3):
+            for deco, dname in ((dict(pre_attrs=["/// documented variant"]), "doc comment before #[cfg]"), (dict(post_attrs=["/// documented variant"]), "doc comment after #[cfg]"),
+                                (dict(pre_attrs=["#[allow(dead_code)]"]), "#[allow] before #[cfg]"), (dict(pre_attrs=["/// a", "/// b", "#[allow(dead_code)]"]), "three attributes before #[cfg]")):
+                for cfgval in (True, False):
+                    def mk(exh):
+                        e = make_enum("E", n, [0, 1, 2], exh, cfg=[cfgval if k == pos_ else None for k in range(3)])
+                        e["variants"][pos_] = dict(e["variants"][pos_], **deco)
+                        return e
+                    add(mk("conditional"), mk("false"), "cfg-without-conditional", "cfg(%s) on variant %d of 3 with %s, exhaustive = false" % ("all" if cfgval else "any", pos_, dname))
+        # exhaustive = true claimed while a cfg-gated (absent) variant makes the count fit
+        if n <= 3:
+            full = list(range(space))
+            for pos_ in (0, space // 2, space - 1):
+                def mk2(exh):
+                    e = make_enum("E", n, full, exh, cfg=[False if k == pos_ else None for k in range(space)])
+                    e["variants"][pos_] = dict(e["variants"][pos_], pre_attrs=["/// documented variant"])
+                    return e
+                add(mk2("conditional"), mk2("true"), "cfg-without-conditional", "exhaustive = true with a compiled-out, documented cfg variant at position %d" % pos_)
     for n in edges:
         space = 1 << n
         add(make_enum("E", n, [0, space - 1], "false"), make_enum("E", n, [0, space], "false"), "discriminant>=2^N", "discriminant = 2^N, exhaustive = false") if n < 64 else None
